@@ -56,9 +56,14 @@ def gen_instances(ctx):
             out.append(('bool3care', ci.boolean_instance(3, fm, cm, bk())))
     # 4 two-valued variables, care = TRUE
     if ctx.thorough:
+        # exhaustive; light comparison (no cyclic_core, one pick) because the
+        # model is proved minimum on this whole domain (C09_bounded_4)
         for m in range(1, 65535):
-            out.append(('bool4', ci.boolean_instance(4, m, None,
-                                                     'cudd' if m % 2 else 'autoref')))
+            out.append(('bool4all', ci.boolean_instance(
+                4, m, None, 'cudd' if m % 2 else 'autoref')))
+        for _ in range(1500):
+            out.append(('bool4', ci.boolean_instance(
+                4, rng.randrange(1, 65535), None, bk())))
     else:
         for _ in range(150):
             out.append(('bool4', ci.boolean_instance(
@@ -99,6 +104,8 @@ def work(job):
     except Exception as e:   # the property says a cover is returned
         res['error'] = ci.describe_exception(e)
         return res
+    if kind == 'bool4all':
+        return res
     try:
         core3, xs2, _ = ci.run_cyclic_core(inst)
         res['core'] = core3
@@ -123,7 +130,8 @@ def coq_group(i, inst, res):
     terms = [f'is_min_prime_cover_b {args} {cq.boxes(proj(res["cover"]))}']
     keys = ['checker']
     n = len(res['cover'])
-    for pk in ('pick_first', 'pick_last'):
+    for pk in (('pick_first',) if res['kind'] == 'bool4all'
+               else ('pick_first', 'pick_last')):
         terms.append(
             f'match minimize {p}rs {pk} {p}f {p}care with '
             f'Some K => Nat.eqb (length K) {n}%nat && '
@@ -164,14 +172,14 @@ def correspond(ctx):
                 'lattice variables differ from the joint support of f, care',
                 inst, impl=res['xs'], model=res['support']))
             continue
-        if 'core_error' in res:
+        if 'core_error' in res and kind != 'bool4all':
             mism.append(Mismatch(
                 'cover.cyclic_core raised ' + res['core_error']['type'],
                 inst, impl=res['core_error'], property_fails=True))
             continue
         if len(res['cover']) > 1:
             nontrivial += 1
-        if res['core'][0]:
+        if res.get('core') and res['core'][0]:
             cores += 1
         g, keys = coq_group(i, inst, res)
         groups.append(g)
